@@ -185,6 +185,9 @@ pub struct Cut {
 
 enum Cmd {
     Frame { bytes: Vec<u8>, stream: i16, opcode: u8, tag: Option<u64> },
+    /// two TCP segments with a pause in between, written by the writer task itself so that no other
+    /// frame of this connection can land between the halves
+    Split { first: Vec<u8>, pause_ms: u64, second: Vec<u8> },
     Close(CloseHow),
 }
 
@@ -220,6 +223,11 @@ impl Conn {
     }
     pub fn send_raw(&self, bytes: Vec<u8>) {
         let _ = self.tx.send(Cmd::Frame { bytes, stream: -32768, opcode: 0xff, tag: None });
+    }
+    /// Writes `first`, flushes, waits `pause_ms`, writes `second`; nothing else is written to this
+    /// connection in between (responses queued meanwhile follow afterwards).
+    pub fn send_raw_split(&self, first: Vec<u8>, pause_ms: u64, second: Vec<u8>) {
+        let _ = self.tx.send(Cmd::Split { first, pause_ms, second });
     }
     pub fn compression(&self) -> Option<Compression> {
         *self.compression.lock().unwrap()
@@ -784,6 +792,17 @@ async fn serve_conn(inner: Arc<ClusterInner>, node: Arc<MockNode>, sock: TcpStre
                     wlog.push(Ev::Send { node: wconn.node, conn: wconn.id, stream, opcode, bytes: bytes.len(), written: bytes.len(), tag });
                     wconn.resp_bytes.fetch_add(bytes.len(), Ordering::SeqCst);
                     if wr.write_all(&bytes).await.is_err() {
+                        return Some((wr, CloseHow::Fin));
+                    }
+                }
+                Cmd::Split { first, pause_ms, second } => {
+                    wconn.resp_bytes.fetch_add(first.len() + second.len(), Ordering::SeqCst);
+                    if wr.write_all(&first).await.is_err() {
+                        return Some((wr, CloseHow::Fin));
+                    }
+                    let _ = wr.flush().await;
+                    tokio::time::sleep(Duration::from_millis(pause_ms)).await;
+                    if wr.write_all(&second).await.is_err() {
                         return Some((wr, CloseHow::Fin));
                     }
                 }
